@@ -973,3 +973,56 @@ pub fn ne_one_sub_panics(x: u32) -> u32 {
         0
     }
 }
+
+// accumulation loops: `for x in IT { acc += widen(x) }` is IT.map(widen).sum()
+pub fn sum_loop_safe(s: &[i16]) -> i32 {
+    if s.len() < 64 {
+        return 0;
+    }
+    let mut num: i32 = 0;
+    for &v in &s[..64] {
+        num += i32::from(v);
+    }
+    num.div_euclid(64)
+}
+pub fn sum_loop_narrow_panics(s: &[i16]) -> i16 {
+    if s.len() < 64 {
+        return 0;
+    }
+    // the accumulator is as narrow as the elements: 64 * 32767 does not fit
+    let mut num: i16 = 0;
+    for &v in &s[..64] {
+        num += v;
+    }
+    num
+}
+pub fn sum_loop_unbounded_panics(s: &[i32]) -> i32 {
+    // unknown number of elements of full range
+    let mut num: i32 = 0;
+    for &v in s {
+        num += v;
+    }
+    num
+}
+pub fn sum_loop_scaled_panics(s: &[i16]) -> i32 {
+    if s.len() < 64 {
+        return 0;
+    }
+    // not a plain widening: 64 * 32767 * 70000 overflows
+    let mut num: i32 = 0;
+    for &v in &s[..64] {
+        num += i32::from(v) * 70000;
+    }
+    num
+}
+pub fn sum_loop_extra_add_panics(s: &[i16], big: i32) -> i32 {
+    if s.len() < 64 {
+        return 0;
+    }
+    // the accumulator does not start at zero
+    let mut num: i32 = big;
+    for &v in &s[..64] {
+        num += i32::from(v);
+    }
+    num
+}
